@@ -1,17 +1,61 @@
 (* C10 - Skipping accepts exactly what reading accepts and advances identically.
    Statements only; every proof is `exact <lemma>` from Proofs/ContentP.v.
 
-   STATUS: partial. Proved: agreement of skipping and reading on absence and
-   on primitive values (same octets consumed, filter called exactly once with
-   the value's tag, form and depth). The general simulation between the
-   explicit-stack machine (skip_loop/skip_after/skip_unwind) and the recursive
-   reader for arbitrarily nested values is NOT proved here; it is decided by
-   the c10.prog correspondence with an implementation-side skip-versus-read
-   oracle on well-formed, mutated and random inputs in three contexts, and
-   c10.deep measures real stack use. In the model skipping keeps the open
-   values on an explicit list, not on the call stack. *)
+   Proved (Proofs/SkipP.v), for every octet string, mode, enclosing context,
+   limit and nesting depth, through the X.690 grammar of C02:
+     C10_skip_then_read  - if skip_opt reports a value then the generic read
+       of the next value succeeds on the same input, delivers a tree whose
+       pre-order node list (tag, constructed flag, depth) is exactly the
+       sequence the filter was shown, and leaves the source in the same state;
+     C10_read_then_skip  - conversely, if the generic read of the next value
+       succeeds, skipping with an accepting filter succeeds with the same
+       final state and that trace;
+     C10_absent_like_read - skip_opt reports absence exactly where the read
+       does (exhausted definite value, end of top-level input, end-of-contents
+       of an indefinite value - which both consume), with the same state;
+     C10_wellformed_is_skipped / C10_skipped_is_wellformed - the same facts
+       stated against the grammar, for any filter.
+   The machine keeps open values on an explicit list (the model's stack), not
+   on the call stack; real stack use is measured by c10.deep / c01.deep.
+   By streams only: skip_all's loop as a whole (it is skip_one iterated),
+   filters that reject in the middle of a value. *)
 Require Import BV.Model.Base BV.Model.SrcB BV.Model.Length BV.Model.Tag BV.Model.Content.
-Require Import BV.Proofs.SrcBP BV.Proofs.TagP BV.Proofs.ContentP.
+Require Import BV.Proofs.SrcBP BV.Proofs.TagP BV.Proofs.ContentP BV.Proofs.GrammarP BV.Proofs.SkipP.
+
+Theorem C10_skip_then_read : forall fuel c fl s c' tr s',
+  nf s -> octets_ok (rem s) = true -> may_start c (lim s) ->
+  skip_opt fuel c fl s = (Ok (SkSome, c', tr), s') ->
+  exists t, tr = trace_of t 0 /\ forall f2, (size t <= f2)%nat ->
+    process_next_value c None (rd f2) s = (Ok (Some t, c), s').
+Proof. exact skip_then_read. Qed.
+
+Theorem C10_read_then_skip : forall f c s t c' s' fuel,
+  nf s -> octets_ok (rem s) = true -> may_start c (lim s) ->
+  process_next_value c None (rd f) s = (Ok (Some t, c'), s') ->
+  (2 * length (rem s) < fuel)%nat ->
+  skip_opt fuel c accept_all s = (Ok (SkSome, c, trace_of t 0), s').
+Proof. exact read_then_skip. Qed.
+
+Theorem C10_absent_like_read : forall fuel f c fl s c' tr s',
+  nf s -> octets_ok (rem s) = true ->
+  skip_opt fuel c fl s = (Ok (SkNone, c', tr), s') ->
+  process_next_value c None (rd f) s = (Ok (None, c'), s').
+Proof. exact skip_absent_like_read. Qed.
+
+Theorem C10_wellformed_is_skipped : forall m t d c fl rest l fuel,
+  GrammarP.enc m t d -> cmd c = m -> octets_ok (d ++ rest) = true -> lim_ge l (len d) -> may_start c l ->
+  accepts fl (trace_of t 0) = true -> (2 * length d < fuel)%nat ->
+  skip_opt fuel c fl (mkSrc (d ++ rest) l None)
+  = (Ok (SkSome, c, trace_of t 0), mkSrc rest (lim_sub l (len d)) None).
+Proof. exact wellformed_is_skipped. Qed.
+
+Theorem C10_skipped_is_wellformed : forall fuel c fl s c' tr' s',
+  nf s -> octets_ok (rem s) = true ->
+  skip_opt fuel c fl s = (Ok (SkSome, c', tr'), s') ->
+  c' = c /\ exists t d, GrammarP.enc (cmd c) t d /\ rem s = d ++ rem s' /\
+                       consumed s s' (len d) /\ tr' = trace_of t 0 /\ accepts fl tr' = true.
+Proof. exact skipped_is_wellformed. Qed.
+
 
 Theorem C10_absent_alike_partial :
   forall T fuel c fl (op : tag -> content -> M (T * content)) s,
@@ -46,5 +90,10 @@ Example C10_ex_rejects :
   fst (skip_opt 40 (mkCons Unbounded Der) accept_all (pure_src [48; 128; 0; 0] None)) = CErr.
 Proof. repeat split; vm_compute; reflexivity. Qed.
 
+Print Assumptions C10_skip_then_read.
+Print Assumptions C10_read_then_skip.
+Print Assumptions C10_absent_like_read.
+Print Assumptions C10_wellformed_is_skipped.
+Print Assumptions C10_skipped_is_wellformed.
 Print Assumptions C10_absent_alike_partial.
 Print Assumptions C10_primitive_alike_partial.
